@@ -520,9 +520,183 @@ func concurrent(dir string, seed int64, runs int, trace *util.NDJSON) {
 	}
 }
 
+// observeCatalog adds the events of a catalog that is about to be published (called from the commit hook, under the
+// engine mutex): with retention at work this is the only place where every event can be seen.
+func (h *history) observeCatalog(cat *lungo.Catalog) {
+	if h.index == nil {
+		h.index = map[string]int{}
+	}
+	for _, doc := range cat.Namespaces[lungo.Oplog].Documents.List {
+		ts, _ := bsonkit.Get(doc, "_id.ts").(primitive.Timestamp)
+		if _, ok := h.index[idOf(ts)]; ok {
+			continue
+		}
+		db, _ := bsonkit.Get(doc, "ns.db").(string)
+		coll, _ := bsonkit.Get(doc, "ns.coll").(string)
+		op, _ := bsonkit.Get(doc, "operationType").(string)
+		h.evs = append(h.evs, event{ts, db, coll, op})
+		h.index[idOf(ts)] = len(h.evs)
+	}
+}
+
+// retention: consumers of different speed while writers commit and the engine trims its change log (at most 6
+// events are kept).  A consumer either receives every event of its scope, in order, or - when it fell behind what
+// is retained - a gap-free prefix of them and then the lost-position error; it never skips.
+func retentionConc(dir string, seed int64, runs int, trace *util.NDJSON) {
+	for run := 0; run < runs; run++ {
+		sched := conc.NewSched(seed*1000+int64(run), 30)
+		client, engine, err := lungo.Open(context.Background(), lungo.Options{Store: lungo.NewMemoryStore(), MinOplogSize: 2, MaxOplogSize: 6, MinOplogAge: time.Nanosecond, MaxOplogAge: time.Hour})
+		if err != nil {
+			util.Die("open: %v", err)
+		}
+		var hmu sync.Mutex
+		h := &history{}
+		h.observeCatalog(engine.Catalog())
+		type consumer struct {
+			cs        lungo.IChangeStream
+			scope     [2]string
+			slow      time.Duration
+			delivered []string
+			lost      bool
+			other     string
+			mu        sync.Mutex
+			done      chan struct{}
+		}
+		var cons []*consumer
+		for i, scope := range [][2]string{{"", ""}, {"d", ""}, {"d", "c1"}, {"d", "c1"}, {"", ""}, {"d", "c2"}} {
+			cs, err := open(client, scope, options.ChangeStream())
+			if err != nil {
+				util.Die("watch: %v", err)
+			}
+			cons = append(cons, &consumer{cs: cs, scope: scope, slow: []time.Duration{0, 0, 0, 300 * time.Microsecond, 800 * time.Microsecond, 100 * time.Microsecond}[i], done: make(chan struct{})})
+		}
+		sched.Install()
+		prev := lungo.VerifHook
+		lungo.VerifHook = func(point string, e *lungo.Engine, txn *lungo.Transaction) {
+			if point == "commit.publish" && txn != nil {
+				hmu.Lock()
+				h.observeCatalog(txn.Catalog())
+				hmu.Unlock()
+			}
+			if prev != nil {
+				prev(point, e, txn)
+			}
+		}
+		ctx, cancel := context.WithCancel(context.Background())
+		for _, c := range cons {
+			go func(c *consumer) {
+				defer close(c.done)
+				for c.cs.Next(ctx) {
+					var ev bson.M
+					if c.cs.Decode(&ev) != nil {
+						continue
+					}
+					if id, ok := ev["_id"].(bson.M); ok {
+						if ts, ok := id["ts"].(primitive.Timestamp); ok {
+							c.mu.Lock()
+							c.delivered = append(c.delivered, idOf(ts))
+							c.mu.Unlock()
+						}
+					}
+					if c.slow > 0 {
+						time.Sleep(c.slow)
+					}
+				}
+				if err := c.cs.Err(); err == lungo.ErrLostOplogPosition {
+					c.mu.Lock()
+					c.lost = true
+					c.mu.Unlock()
+				} else if err != nil && ctx.Err() == nil {
+					c.mu.Lock()
+					c.other = err.Error()
+					c.mu.Unlock()
+				}
+			}(c)
+		}
+		var wg sync.WaitGroup
+		for w := 0; w < 3; w++ {
+			wg.Add(1)
+			go func(w int) {
+				defer wg.Done()
+				coll := client.Database("d").Collection([]string{"c1", "c2", "c1"}[w])
+				for i := 0; i < 40; i++ {
+					coll.InsertOne(context.Background(), d("_id", int32(w*1000+i)))
+					if i%7 == 0 {
+						coll.UpdateMany(context.Background(), d(), d("$inc", d("v", int32(1)))) // several events in one commit
+					}
+					if i%5 == w {
+						time.Sleep(200 * time.Microsecond)
+					}
+				}
+			}(w)
+		}
+		wdone := make(chan struct{})
+		go func() { wg.Wait(); close(wdone) }()
+		select {
+		case <-wdone:
+		case <-time.After(60 * time.Second):
+			finding("stall", "writers did not return within 60 s while consumers were reading under retention", V{"run": run, "stacks": stacks()})
+			out.Encode(V{"kind": "summary", "cases": 0, "findings": findings, "aborted": true})
+			os.Exit(0)
+		}
+		// quiet: every consumer catches up or has failed with the lost-position error
+		sched.Quiet(true)
+		deadline := time.Now().Add(15 * time.Second)
+		for _, c := range cons {
+			hmu.Lock()
+			want := 0
+			for _, e := range h.evs {
+				if (c.scope[0] == "" || e.db == c.scope[0]) && (c.scope[1] == "" || e.coll == c.scope[1]) {
+					want++
+				}
+			}
+			hmu.Unlock()
+			for {
+				c.mu.Lock()
+				got, lost, other := len(c.delivered), c.lost, c.other
+				c.mu.Unlock()
+				if got >= want || lost || other != "" {
+					break
+				}
+				if time.Now().After(deadline) {
+					finding("stall", "a consumer has neither received every committed event nor failed 15 s after the writers went quiet", V{"run": run, "scope": c.scope, "delivered": got, "committed": want, "stacks": stacks()})
+					break
+				}
+				time.Sleep(500 * time.Microsecond)
+			}
+		}
+		cancel()
+		for _, c := range cons {
+			select {
+			case <-c.done:
+			case <-time.After(15 * time.Second):
+				finding("stall", "a blocked Next was not woken by context cancellation", V{"run": run})
+			}
+		}
+		conc.Uninstall()
+		hmu.Lock()
+		log := h.json()
+		hmu.Unlock()
+		for _, c := range cons {
+			c.mu.Lock()
+			del := make([]interface{}, 0, len(c.delivered))
+			for _, id := range c.delivered {
+				del = append(del, id)
+			}
+			if c.other != "" {
+				finding("stream", "a consumer stopped with an error that is neither cancellation nor a lost position: "+c.other, V{"run": run, "scope": c.scope})
+			}
+			trace.Write(V{"fn": "sprefix", "hist": run, "scope": []interface{}{c.scope[0], c.scope[1]}, "log": log, "start": 0, "delivered": del, "lost": c.lost})
+			c.mu.Unlock()
+			c.cs.Close(context.Background())
+		}
+		engine.Close()
+	}
+}
+
 func main() {
 	if len(os.Args) < 4 {
-		util.Die("usage: strm seq|conc <dir> <seed> <n>")
+		util.Die("usage: strm seq|conc|retain <dir> <seed> <n>")
 	}
 	mode, dir := os.Args[1], os.Args[2]
 	seed, _ := strconv.ParseInt(os.Args[3], 10, 64)
@@ -536,6 +710,8 @@ func main() {
 		seq(dir, seed, n, trace)
 	case "conc":
 		concurrent(dir, seed, n, trace)
+	case "retain":
+		retentionConc(dir, seed, n, trace)
 	default:
 		util.Die("unknown mode")
 	}
